@@ -118,12 +118,24 @@ def dispatch_call(fr: Frame, e: ast.Call, env, guard: G, stmt):
     # ---- function-pointer slots / lambdas / unknown -----------------------
     if isinstance(f, ast.Name):
         v = env.get(f.id)
-        if isinstance(v, Obj) and v.tag == "func":
-            fi = fr.ev.repo.func(v.val) if "." in v.val else None
-            if fi is not None:
-                return _package_call(fr, fi, e, args, kwargs, guard, stmt)
+        if v is None:
+            v = fr.expr(f, env)          # a module-level table entry / constant
+        # a name that may hold one of several functions is a *slot* (kept abstract: rules reason about the slot);
+        # a name holding one known function value is simply called
+        called = _call_value(fr, v, e, args, kwargs, env, guard, stmt) if not isinstance(v, PW) else _NOT_CALLABLE
+        if called is not _NOT_CALLABLE:
+            return called
         fr.events.append(Event(guard, "call", f.id, tuple(args), e, fr.havoc_depth))
         return _opaque_call(fr, "slot:" + f.id, args, kwargs)
+    if isinstance(f, (ast.Call, ast.IfExp)) or (isinstance(f, ast.Subscript) and not (isinstance(fr.expr(f.value, env), Obj))):
+        # the callee is itself computed: table.get(key, default)(...), (a if c else b)(...)
+        try:
+            fv = fr.expr(f, env)
+        except Unsupported:
+            fv = None
+        called = _call_value(fr, fv, e, args, kwargs, env, guard, stmt) if fv is not None else _NOT_CALLABLE
+        if called is not _NOT_CALLABLE:
+            return called
     if isinstance(f, ast.Subscript):
         # dispatch table methods[cost](...)
         tbl = fr.expr(f.value, env)
@@ -131,6 +143,13 @@ def dispatch_call(fr: Frame, e: ast.Call, env, guard: G, stmt):
         if isinstance(tbl, Obj) and tbl.tag == "dict":
             cases = []
             rest = TRUE
+            if isinstance(key, Obj):
+                # a known key: the entry itself is called (function, lambda or nested def)
+                for (kk, _vk, vv) in tbl.val:
+                    if kk == vkey(key):
+                        called = _call_value(fr, vv, e, args, kwargs, env, guard, stmt)
+                        if called is not _NOT_CALLABLE:
+                            return called
             for (kk, _vk, vv) in tbl.val:
                 if isinstance(vv, Obj) and vv.tag == "func":
                     g = fr.compare1(ast.Is(), key, _obj_from_key(kk), e)
@@ -141,6 +160,69 @@ def dispatch_call(fr: Frame, e: ast.Call, env, guard: G, stmt):
         return _opaque_call(fr, "call:" + norm_text(f), args, kwargs)
     fr.events.append(Event(guard, "call", norm_text(f), tuple(args), e, fr.havoc_depth))
     return _opaque_call(fr, "call:" + norm_text(f), args, kwargs)
+
+
+_NOT_CALLABLE = object()
+
+
+def _call_value(fr: Frame, v, e, args, kwargs, env, guard, stmt):
+    """Call a function *value*: a package function, a lambda or a nested def (also piecewise: one call per case)."""
+    ev = fr.ev
+    if isinstance(v, PW):
+        cases = []
+        for g, c in v.cases:
+            r = _call_value(fr, c, e, args, kwargs, env, g_and(guard, g), stmt)
+            if r is _NOT_CALLABLE:
+                return _NOT_CALLABLE
+            cases.append((g, r))
+        return mk_pw(cases)
+    if not isinstance(v, Obj):
+        return _NOT_CALLABLE
+    if v.tag == "func":
+        fi = ev.repo.func(v.val) if "." in str(v.val) else None
+        if fi is None:
+            return _NOT_CALLABLE
+        return _package_call(fr, fi, e, args, kwargs, guard, stmt)
+    if v.tag == "lambda" and v.val in ev.fn_registry:
+        node, def_fi, def_env = ev.fn_registry[v.val]
+        if fr.depth >= ev.inline_depth + 2:
+            return _NOT_CALLABLE
+        # free variables are the enclosing function's locals: their *current* values when the call is made from that function
+        base = dict(env) if def_fi is fr.fi else dict(def_env)
+        a_ = node.args
+        params = [p.arg for p in a_.args]
+        if a_.vararg or a_.kwarg or a_.kwonlyargs or a_.posonlyargs:
+            return _NOT_CALLABLE
+        bound = {}
+        for k_, val in enumerate(args):
+            if k_ >= len(params):
+                return _NOT_CALLABLE
+            bound[params[k_]] = val
+        for k_, val in kwargs.items():
+            if k_ not in params or k_ in bound:
+                return _NOT_CALLABLE
+            bound[k_] = val
+        defaults = a_.defaults
+        for k_, d in enumerate(defaults):
+            pn = params[len(params) - len(defaults) + k_]
+            if pn not in bound:
+                bound[pn] = fr.expr(d, def_env)
+        if set(bound) != set(params):
+            return _NOT_CALLABLE
+        base.update(bound)
+        sub = Frame(ev, def_fi, fr.depth + 1)
+        if isinstance(node, ast.Lambda):
+            return sub.expr(node.body, base)
+        if any(isinstance(n, (ast.For, ast.While, ast.Global, ast.Nonlocal)) for n in ast.walk(node)):
+            return _NOT_CALLABLE
+        live = sub.block(node.body, base, TRUE)
+        if sub.events and any(ev_.kind not in ("return", "call") for ev_ in sub.events):
+            return _NOT_CALLABLE
+        rets = list(sub.returns)
+        if live.kind != "false":
+            rets.append((live, NONE))
+        return mk_pw(rets)
+    return _NOT_CALLABLE
 
 
 def _obj_from_key(k):
@@ -278,6 +360,12 @@ def _method_call(fr: Frame, e, f: ast.Attribute, args, kwargs, env, guard, stmt)
                 return anf.f_minmax("max" if name == "amax" else "min", [ev.to_rat(c) for c in b.items])
             return anf.opaque(name, ev.to_rat(b), array=False)
         return lift(g, base)
+    if m in ("sum", "mean", "argmax", "argmin", "dot") or (m in ("max", "min") and not isinstance(base, Vec)):
+        # x.m(...) is np.m(x, ...): one normal form for the method and the function spelling
+        try:
+            return _known(fr, "np." + m, e, [base] + list(args), kwargs, env, guard, stmt)
+        except Unsupported:
+            pass
     if m == "max":
         return red("amax")
     if m == "min":
@@ -288,6 +376,22 @@ def _method_call(fr: Frame, e, f: ast.Attribute, args, kwargs, env, guard, stmt)
         return lift(lambda b: anf.f_sum(ev.to_rat(b), ev.length_of(b)).div(ev.length_of(b)), base)
     if m == "argsort":
         return lift(lambda b: anf.opaque("argsort", ev.to_rat(b), array=True), base)
+    if m == "get" and isinstance(base, Obj) and base.tag == "dict" and 1 <= len(args) <= 2 and not kwargs:
+        key, dflt = args[0], (args[1] if len(args) == 2 else NONE)
+        if isinstance(key, Obj):
+            for (kk, _vk, vv) in base.val:
+                if kk == vkey(key):
+                    return vv
+            if all(isinstance(kk, tuple) and kk and kk[0] == "obj" for kk, _v, _x in base.val):
+                return dflt               # every key is a known object and none is this one
+        else:
+            cases, rest = [], TRUE
+            for (kk, _vk, vv) in base.val:
+                g = fr.compare1(ast.Is(), key, _obj_from_key(kk), e)
+                cases.append((g_and(rest, g), vv))
+                rest = g_and(rest, g_not(g))
+            cases.append((rest, dflt))
+            return mk_pw(cases)
     if m == "keys" or m == "values" or m == "items":
         return anf.opaque("dict." + m, ev.to_rat(base) if not isinstance(base, PW) else anf.opaque("pw", extra=repr(base.key)))
     fr.events.append(Event(guard, "call", f"{base_name}.{m}", tuple(args), e, fr.havoc_depth))
